@@ -58,6 +58,9 @@ func batches() []batch {
 	for _, s := range []string{"a-lookup", "a-cleanup", "b-1", "b-8", "c"} {
 		out = append(out, batch{"sched|" + s})
 	}
+	for _, k := range []kit.Kind{kit.LSSE, kit.SSSE, kit.SJSON} {
+		out = append(out, batch{fmt.Sprintf("stalled|%s", k)})
+	}
 	return out
 }
 
@@ -234,6 +237,8 @@ func child() {
 			n = 40
 		}
 		lifecycleBatch(rep, kit.Kind(parts[1]), n)
+	case "stalled":
+		stalledBatch(rep, kit.Kind(parts[1]), seed, thorough)
 	case "server":
 		n := 6
 		if thorough {
@@ -317,6 +322,8 @@ func main() {
 	r.Require(r.Counter("errors_returned") > 0 && r.Counter("values_complete_answer") > 0 && r.Counter("ctx_errors_returned") > 0, "outcome classes missing: errors=%d values=%d ctx-errors=%d", r.Counter("errors_returned"), r.Counter("values_complete_answer"), r.Counter("ctx_errors_returned"))
 	r.Require(r.Counter("sched_races_set_up") >= 5, "only %d of 5 yield-controlled races were set up", r.Counter("sched_races_set_up"))
 	r.Require(r.Counter("server_peers_vanished_with_running_handler") > 0 && r.Counter("server_peers_vanished_with_listening_stream") > 0 && r.Counter("server_peers_vanished_with_pending_server_request") > 0, "server side: peers did not vanish with handlers / streams / server requests pending")
+	r.Require(r.Counter("stalled_scenarios_with_backpressure") >= 3 && r.Counter("stalled_peers_departed_with_answers_waiting") >= 6 && r.Counter("stalled_answers_waiting_when_peer_left") >= 300,
+		"server side, stalled peers: only %d of 5 scenarios built back-pressure, %d peers departed with answers waiting, %d answer goroutines were waiting for space when their peer left", r.Counter("stalled_scenarios_with_backpressure"), r.Counter("stalled_peers_departed_with_answers_waiting"), r.Counter("stalled_answers_waiting_when_peer_left"))
 	r.Require(r.Counter("stdio_clients_closed") > 0, "no stdio close stress")
 	r.Require(r.Counter("http_error_answers_delivered") >= 500 && r.Counter("errstatus_classes_measured") >= 100 && r.Counter("errstatus_errors_returned") > 0,
 		"calls ending with an HTTP error answer: only %d answers delivered, %d classes measured, %d errors returned", r.Counter("http_error_answers_delivered"), r.Counter("errstatus_classes_measured"), r.Counter("errstatus_errors_returned"))
@@ -327,7 +334,7 @@ func main() {
 	r.Require(r.Counter("tree_server_deaths_observed") >= 50 && r.Counter("tree_cases_helper_held_stdout_at_death") >= 30 && r.Counter("tree_cases_calls_returned_while_stdout_still_held") >= 15 && r.Counter("tree_calls_judged") >= 100,
 		"stdio servers that are process trees: only %d server deaths observed, %d with a helper holding the server's stdout, %d where the calls had returned while it was still held, %d calls judged",
 		r.Counter("tree_server_deaths_observed"), r.Counter("tree_cases_helper_held_stdout_at_death"), r.Counter("tree_cases_calls_returned_while_stdout_still_held"), r.Counter("tree_calls_judged"))
-	r.Finish("cases = (client kind in {S-json, S-sse, L-sse (legacy), stdio}) x (fault kind in {close, rst, stall, truncate; kill -9 / SIGTERM / exit / SIGSTOP / close-stdout for stdio; cancel, deadline; delayed / withheld terminating chunk}) x (point: every message boundary of the exchange - before the request is forwarded, after the request, after the response headers / the 202, between SSE events, before the final event, before the terminating chunk, on the legacy stream before / after the endpoint event, while calls are pending, before / after the answer event; stdio: before the first call, while pending, between calls, before / inside / after the response line - exhaustively; byte offsets inside request, response head, body / event: first byte, last byte and seeded samples) x pending calls in {1, 2, 8}, for target = the call, the Initialize handshake, and the client's listening stream; plus yield-controlled schedules of the three known races and the server side (N, 2N peers with listening streams, running handlers and pending server requests vanish by close / FIN / RST). Oracle per call: returns within 10 s of the fault (else goroutine dump must show it parked in the library), outcome is an error or the call's own complete answer (nonce + digest + length), context errors for cancellation; per case: Close returns, pending tables empty, and goroutines with library frames / persistConn loops / fds / child processes at quiescence do not grow case after case of the same class. Distinct = (kind, target, fault@point, pending count, outcome class) with the fault actually delivered. HTTP error answers (errstatus batches): (client kind in {S-json, S-sse, L-sse}) x (operation in {tools/call + tools/list, initialize, notification, open of the listening / event stream, DELETE of TerminateSession, the client's POST of its answer to a server-issued roots/list}) x (answer in {4xx / 5xx with JSON / text / HTML / SSE body framed by Content-Length, chunked, large, to-EOF, empty, chunked-never-finished; response head never finished / no answer at all; 202 / 204 where a result was expected; 200 of the wrong content type; 301..308 redirects ending in an error page; 429 / 5xx with client retries}) given by a gateway (the proxy answers itself), plus the library server's own 404 (session terminated on the server, unknown path) and 400 (session id dropped). Per class: baseline, n operations + Close, 2n more + Close; half of the callers never cancel their context. Oracle: each operation returns, never with a value that is not its own answer; pending table empty; goroutines with library frames / persistConn loops / fds / connections still seen open by the proxy must not be above the previous level both after n and after 2n more (and still after a longer wait). A class counts only when all its error answers reached the client. Close racing a call that is still establishing something (closerace batches): (client kind in {S-json, S-sse, L-sse, stdio}) x (the exchange is stalled - held by the relay / by a scripted child, not ended - at each message boundary and inside each unit of: Initialize (legacy: GET of the event stream before it is forwarded / before its response head / inside the head, the stream before / inside the endpoint event, the initialize POST before it is forwarded / before its 202, the stream before / inside the initialize answer, the POST of notifications/initialized before it is forwarded / before its 202; Streamable: the initialize POST before it is forwarded / before / inside / after its response head / inside its body, the notification's POST before it is forwarded / before its 202; stdio: before / inside the child's answer line, child dying of SIGINT / ignoring it / ignoring SIGINT + SIGPIPE and staying after the end of its stdin), the first ordinary call (the same points of its POST, between its SSE events, on the legacy stream before / inside its answer) and the open of the Streamable listening stream (GET before it is forwarded / before / inside / after its head)) x (caller's context: context.Background() / a deadline 30 min away that nobody cancels). While stalled: Close; then the peer continues (the stall is released, the real server answers, streams it opens stay open; nothing is cut by the harness). Per class: baseline, n cycles, 2n more. Oracle: the stalled call returns by Close or at the latest once the peer continued (10 s watchdog + goroutine dump), with an error or its own complete answer; Close returns; pending table empty; client-side goroutines with library frames / persistConn loops / fds / children / connections the relay still sees open must not be above the previous level both after n and after 2n more (and still after a longer wait). An Initialize that returns success after Close (Streamable: Close is not terminal, the client object is reusable) leaves a live client that the harness closes once more - counted as closerace_initialize_succeeded_after_close. A class counts only when every cycle reached its stall. Close / cancel racing the CREATION of what a call needs (spawnrace batches): stdio - (the end of the client: Close with callers on context.Background() / cancellation of the caller's context followed by Close) x (window: before the first call; a seeded instant 0 .. 4 ms after the first call began; while the fork/exec of the server process is in progress - the harness holds syscall.ForkLock for reading so that exec.Cmd.Start blocks at the fork (seen in the goroutine dump: startProcess -> syscall.forkExec), Close runs to its end, then the lock is released; the same set-up with Close landing at the release of the lock / the moment GetProcessID becomes non-zero / up to 400 us later, i.e. right after Start returned, around the first byte written; while the child exists and is still starting up - it sleeps before reading its stdin and goes on while Close is at work) x (child dies of SIGINT / ignores SIGINT / ignores SIGINT + SIGPIPE and stays after the end of its stdin), n clients per round under one fork lock; Streamable / legacy - the first request that has to dial (initialize POST, notification POST, GET of the event / listening stream, first tools/call) goes through a user-level HTTPReqHandler whose transport blocks in DialContext: Close while the TCP connect is in progress, then the connect completes (dialer ignoring / honouring its context, alternating). Per class: baseline, n cycles, 2n more. Oracle: the first call returns once nothing the harness holds is in its way (10 s watchdog + goroutine dump; a cancelled call with a sleeping child must return without the child moving), with an error or its own complete answer; Close returns; pending table empty; children of this process (by pid from /proc, zombies included - the pids the library reported are followed up individually in the witness), fds, client-side goroutines with library frames, connections (also those the relay sees) must not be above the previous level both after n and after 2n more (and still after a longer wait). A class counts only when every cycle reached its window. Stdio servers that are PROCESS TREES (stdiotree batches): the server process (scripted) first starts helpers that inherit its descriptors and outlive it - configurations {one helper that sleeps holding stdout / stdin+stdout+stderr / only stderr / only stdin; one that also writes log lines and notifications to stdout and stderr now and then; a helper in its own session / its own process group; /bin/sh as launcher with a sleeping grand-child; /bin/sh writing in a loop with grand-children; three mixed helpers; none} - and then the SERVER process itself (exits 0 | exits non-zero | is killed with SIGKILL) at each message boundary {before the initialize answer, inside the initialize answer line, between the initialize answer and the next request (calls issued to the dead server), with 1..n calls read and none answered, inside the answer line of one of n calls, after one complete answer with n-1 calls pending}; callers on a 6 s deadline or on a context nobody cancels. The harness waits until the server process is a zombie or gone in /proc, verifies through /proc/<pid>/fd that the helpers hold the very pipes, then judges: every pending call returns (10 s watchdog after the death was seen + goroutine dump showing it parked in a library frame = blocked-forever; ending only with its own deadline error although the death was seen >= 3 s before that deadline = returns-only-at-deadline), a value only for the one call whose complete answer the server wrote and only that answer; then Close with the helpers still alive, pending table empty, leak levels (goroutines, fds, children incl. the zombie) per class; the helpers are killed by the harness (found by an environment tag in /proc) and are never counted against the library. A case counts only when the death was seen and the helpers were alive and holding what the configuration says.",
+	r.Finish("cases = (client kind in {S-json, S-sse, L-sse (legacy), stdio}) x (fault kind in {close, rst, stall, truncate; kill -9 / SIGTERM / exit / SIGSTOP / close-stdout for stdio; cancel, deadline; delayed / withheld terminating chunk}) x (point: every message boundary of the exchange - before the request is forwarded, after the request, after the response headers / the 202, between SSE events, before the final event, before the terminating chunk, on the legacy stream before / after the endpoint event, while calls are pending, before / after the answer event; stdio: before the first call, while pending, between calls, before / inside / after the response line - exhaustively; byte offsets inside request, response head, body / event: first byte, last byte and seeded samples) x pending calls in {1, 2, 8}, for target = the call, the Initialize handshake, and the client's listening stream; plus yield-controlled schedules of the three known races and the server side (N, 2N peers with listening streams, running handlers and pending server requests vanish by close / FIN / RST). Oracle per call: returns within 10 s of the fault (else goroutine dump must show it parked in the library), outcome is an error or the call's own complete answer (nonce + digest + length), context errors for cancellation; per case: Close returns, pending tables empty, and goroutines with library frames / persistConn loops / fds / child processes at quiescence do not grow case after case of the same class. Distinct = (kind, target, fault@point, pending count, outcome class) with the fault actually delivered. HTTP error answers (errstatus batches): (client kind in {S-json, S-sse, L-sse}) x (operation in {tools/call + tools/list, initialize, notification, open of the listening / event stream, DELETE of TerminateSession, the client's POST of its answer to a server-issued roots/list}) x (answer in {4xx / 5xx with JSON / text / HTML / SSE body framed by Content-Length, chunked, large, to-EOF, empty, chunked-never-finished; response head never finished / no answer at all; 202 / 204 where a result was expected; 200 of the wrong content type; 301..308 redirects ending in an error page; 429 / 5xx with client retries}) given by a gateway (the proxy answers itself), plus the library server's own 404 (session terminated on the server, unknown path) and 400 (session id dropped). Per class: baseline, n operations + Close, 2n more + Close; half of the callers never cancel their context. Oracle: each operation returns, never with a value that is not its own answer; pending table empty; goroutines with library frames / persistConn loops / fds / connections still seen open by the proxy must not be above the previous level both after n and after 2n more (and still after a longer wait). A class counts only when all its error answers reached the client. Close racing a call that is still establishing something (closerace batches): (client kind in {S-json, S-sse, L-sse, stdio}) x (the exchange is stalled - held by the relay / by a scripted child, not ended - at each message boundary and inside each unit of: Initialize (legacy: GET of the event stream before it is forwarded / before its response head / inside the head, the stream before / inside the endpoint event, the initialize POST before it is forwarded / before its 202, the stream before / inside the initialize answer, the POST of notifications/initialized before it is forwarded / before its 202; Streamable: the initialize POST before it is forwarded / before / inside / after its response head / inside its body, the notification's POST before it is forwarded / before its 202; stdio: before / inside the child's answer line, child dying of SIGINT / ignoring it / ignoring SIGINT + SIGPIPE and staying after the end of its stdin), the first ordinary call (the same points of its POST, between its SSE events, on the legacy stream before / inside its answer) and the open of the Streamable listening stream (GET before it is forwarded / before / inside / after its head)) x (caller's context: context.Background() / a deadline 30 min away that nobody cancels). While stalled: Close; then the peer continues (the stall is released, the real server answers, streams it opens stay open; nothing is cut by the harness). Per class: baseline, n cycles, 2n more. Oracle: the stalled call returns by Close or at the latest once the peer continued (10 s watchdog + goroutine dump), with an error or its own complete answer; Close returns; pending table empty; client-side goroutines with library frames / persistConn loops / fds / children / connections the relay still sees open must not be above the previous level both after n and after 2n more (and still after a longer wait). An Initialize that returns success after Close (Streamable: Close is not terminal, the client object is reusable) leaves a live client that the harness closes once more - counted as closerace_initialize_succeeded_after_close. A class counts only when every cycle reached its stall. Close / cancel racing the CREATION of what a call needs (spawnrace batches): stdio - (the end of the client: Close with callers on context.Background() / cancellation of the caller's context followed by Close) x (window: before the first call; a seeded instant 0 .. 4 ms after the first call began; while the fork/exec of the server process is in progress - the harness holds syscall.ForkLock for reading so that exec.Cmd.Start blocks at the fork (seen in the goroutine dump: startProcess -> syscall.forkExec), Close runs to its end, then the lock is released; the same set-up with Close landing at the release of the lock / the moment GetProcessID becomes non-zero / up to 400 us later, i.e. right after Start returned, around the first byte written; while the child exists and is still starting up - it sleeps before reading its stdin and goes on while Close is at work) x (child dies of SIGINT / ignores SIGINT / ignores SIGINT + SIGPIPE and stays after the end of its stdin), n clients per round under one fork lock; Streamable / legacy - the first request that has to dial (initialize POST, notification POST, GET of the event / listening stream, first tools/call) goes through a user-level HTTPReqHandler whose transport blocks in DialContext: Close while the TCP connect is in progress, then the connect completes (dialer ignoring / honouring its context, alternating). Per class: baseline, n cycles, 2n more. Oracle: the first call returns once nothing the harness holds is in its way (10 s watchdog + goroutine dump; a cancelled call with a sleeping child must return without the child moving), with an error or its own complete answer; Close returns; pending table empty; children of this process (by pid from /proc, zombies included - the pids the library reported are followed up individually in the witness), fds, client-side goroutines with library frames, connections (also those the relay sees) must not be above the previous level both after n and after 2n more (and still after a longer wait). A class counts only when every cycle reached its window. Stdio servers that are PROCESS TREES (stdiotree batches): the server process (scripted) first starts helpers that inherit its descriptors and outlive it - configurations {one helper that sleeps holding stdout / stdin+stdout+stderr / only stderr / only stdin; one that also writes log lines and notifications to stdout and stderr now and then; a helper in its own session / its own process group; /bin/sh as launcher with a sleeping grand-child; /bin/sh writing in a loop with grand-children; three mixed helpers; none} - and then the SERVER process itself (exits 0 | exits non-zero | is killed with SIGKILL) at each message boundary {before the initialize answer, inside the initialize answer line, between the initialize answer and the next request (calls issued to the dead server), with 1..n calls read and none answered, inside the answer line of one of n calls, after one complete answer with n-1 calls pending}; callers on a 6 s deadline or on a context nobody cancels. The harness waits until the server process is a zombie or gone in /proc, verifies through /proc/<pid>/fd that the helpers hold the very pipes, then judges: every pending call returns (10 s watchdog after the death was seen + goroutine dump showing it parked in a library frame = blocked-forever; ending only with its own deadline error although the death was seen >= 3 s before that deadline = returns-only-at-deadline), a value only for the one call whose complete answer the server wrote and only that answer; then Close with the helpers still alive, pending table empty, leak levels (goroutines, fds, children incl. the zombie) per class; the helpers are killed by the harness (found by an environment tag in /proc) and are never counted against the library. A case counts only when the death was seen and the helpers were alive and holding what the configuration says. Server side, STALLED peers (stalled batches, one child per {L-sse, S-sse, S-json}): a raw peer opens its stream (legacy event stream / the answers of its own Streamable POSTs pipelined over 16 connections, JSON or POST-SSE / the Streamable listening stream), stops reading with the connection open (8 KiB receive buffer), sends 320 (thorough 640) seed-shuffled requests of 22 answer classes (results small, 128 KiB and 1 MiB; unknown method / tool / prompt / resource and invalid params with 128 KiB echoed names or ids; handler Go errors of tools, prompts, resources; isError results; unencodable results; notifications from handlers; 128 KiB notifications the server sends to the session) until socket buffers, the writing pump and the 100-slot event queue are full and further answer goroutines wait for space (counted in the goroutine table; fewer than 8 = not observed, inconclusive), then goes away - 1 peer by close, then 2 more (one by reset), thorough 4 more. Oracle: the level rule - server-side goroutines with library frames / fds must be back at the previous level at quiescence after n and after 2n more peers and at the end (patient 50 s watchdog for quiescence; levels still moving then = inconclusive).",
 		[]string{
 			"byte offsets and cancellation instants are sampled (seeded, fixed counts); message boundaries x fault kinds x transports x pending counts are enumerated completely",
 			"'during connect' is approximated by holding the request inside the proxy (TCP accept is done by the kernel)",
